@@ -111,6 +111,13 @@ def corpus_cases(prop: str) -> list[Case]:
     return out
 
 
+def first_diff_plain(c: Case):
+    for i, (a, b) in enumerate(zip(c.impl_out, c.model_out)):
+        if a != b:
+            return i
+    return None
+
+
 def known_match(prop: str, f: Failure, known: dict):
     for k in known.get("known", []):
         if k["property"] == prop and k["signature"] == f.signature:
@@ -191,6 +198,14 @@ def main() -> int:
                     oracle_fail.append(f)
 
     batch: list[Case] = []
+    # constant tables of the models vs the tables of the code, compared exhaustively on every run
+    static = Case("static-tables", [f"consts {w}" for w in getattr(mod, "CONSTS", ["ops", "ctl", "asm", "toy", "mem"])], None, {"kind": "static"})
+    exec_cases(mod, [static])
+    d = compare(mod, static) if not hasattr(mod, "compare_line") else first_diff_plain(static)
+    if d is not None:
+        corr_fail.append(Failure("correspondence", prop, f"constant table `{static.lines[d]}` of the model differs from the code: impl=`{static.impl_out[d][:400]}` model=`{static.model_out[d][:400]}`",
+                                 "correspondence:static-tables", static, {"op": d}))
+    stats.bump("static_tables", len(static.lines))
     cc = corpus_cases(prop)
     if cc:
         process(cc)
